@@ -276,7 +276,7 @@ int main(int argc, char **argv) {
     if (mode == "small") mode_small(seed, 3, 3, stride, vr::env_int("VERIF_SAMEPART", 1) != 0);
     else if (mode == "rect") { mode_small(seed, 2, 3, stride, false); mode_small(seed, 3, 2, stride, false); }
     else if (mode == "random") mode_random(seed, vr::env_int("VERIF_REPS", th ? 150 : 30), vr::env_int("VERIF_NMAX", th ? 40 : 20), "rand");
-    else if (mode == "big") mode_random(seed + 9, vr::env_int("VERIF_REPS", th ? 10 : 3), vr::env_int("VERIF_NMAX", th ? 300 : 120), "big");
+    else if (mode == "big") mode_random(seed + 9, vr::env_int("VERIF_REPS", th ? 10 : 3), vr::env_int("VERIF_NMAX", th ? 200 : 60), "big");
     dv::barrier();
     if (R == 0) { vr::obj o; o.str("e", "End"); dv::emit(o.done()); }
     return 0;
